@@ -1,6 +1,7 @@
 """C16 -- in-memory audio edits are sample-exact and sample-aligned (R-F)."""
 
 import ast
+from fractions import Fraction
 
 from ..index import norm
 from . import common
@@ -83,6 +84,39 @@ def is_sample_count(e, rate_names, time_names=None):
 
 
 def run(rep, tier):
+    from . import audiobuf
+
+    rep.rule("W-buf", "Wav.getFrames / deleteSegment / insert / replaceSegment / concatenate / getSubwav / duration interpreted over an abstract byte buffer (n samples of a concrete exemplar width, sample indices symbolic): the result is exactly the addressed samples, every cut is a whole number of samples, every time becomes a sample index through round(time * frameRate) and nothing else, queries leave the frames alone")
+    rep.rule("F-file", "readFramesAtTime interpreted on a recording file handle: positioned unconditionally at round(frameRate * start) before the single read")
+    rep.rule("F3-pack", "convertToBytes / convertFromBytes interpreted with struct.pack/unpack as recorders: little-endian, one code of the sample's width per sample, samples passed through unchanged")
+    rep.not_decided.append("what the wave module reads and writes (file round trip); banker's rounding at exact half samples; the number of frames read is round(frameRate*(end-start)), which may differ by one from the in-memory cut for times off the sample grid")
+    audiobuf.wav_table(rep)
+    audiobuf.file_reads(rep)
+    audiobuf.pack_unpack(rep)
+    idx = common.ctx()
+    audio = idx.module("audio")
+    tbl = audio.const_nodes.get("sampleWidthDict")
+    rep.check(tbl is not None, "F3-pack", "audio.sampleWidthDict", "width table present", ok="sampleWidthDict is defined (its codes are exercised per width above)", bad="sampleWidthDict vanished")
+    q = audio.classes.get("QueryWav")
+    if q is not None and "duration" in q.methods:
+        from ..absint import Interp, Lin, MockObj, PyFunc, PyRaise, State, Tup
+        from ..index import Undecided
+        from ..tables import default_overrides
+
+        qd = q.methods["duration"]
+        st = State([("0", Lin.num(0))], [0])
+        I = Interp(idx, st, overrides=default_overrides())
+        handle = MockObj({"getparams": PyFunc(lambda I_: Tup([Lin.num(1), Lin.num(2), Lin.num(8), Lin.var("n"), "NONE", "x"]))}, "wave handle")
+        I.builtin_overrides = {"wave.open": lambda I_, a, k: handle}
+        try:
+            obj = I.instantiate(q, ["f.wav"], {})
+            d = I.getattr(obj, "duration")
+            rep.check(isinstance(d, Lin) and d.same(Lin.var("n").scale(Fraction(1, 8))), "F-file", qd.short, "QueryWav.duration", ok="frames / rate", bad="QueryWav.duration is %r, not nframes / frameRate" % (d,))
+        except (PyRaise, Undecided) as e:
+            rep.undecided("F-file", qd.short, "QueryWav.duration", str(e))
+
+
+def run_syntactic(rep, tier):
     idx = common.ctx()
     rep.rule("F1-aligned", "every slice bound applied to Wav.frames is k*sampleWidth with k a rounded sample index (abstract value ALIGNED), computed by _getIndexAtTime only")
     rep.rule("F1-nearest", "every time->sample conversion is round(time * frameRate) (nearest sample), with nothing else inside the rounding")
